@@ -22,7 +22,8 @@ Inductive obj :=
 | OTensor (X : dense D)
 | OSptensor (Sp : sparse D)
 | OKtensor (K : ktensor D)
-| OMatrix (m n : nat) (A : list (list D)).
+| OMatrix (m n : nat) (A : list (list D))
+| OArray (s : shape) (c : list D).
 
 (* ------------------------------------------------------------------ numpy pieces *)
 (* a.transpose() without arguments: axes reversed, result[j] = a[rev j] *)
@@ -66,6 +67,8 @@ Definition export_lines (b : Z) (o : obj) : list line :=
         :: flat_map (factor_lines (krank K)) (kfactors K)
   | OMatrix m n A =>
       [Word "matrix"%string] :: size_lines [m; n] ++ one_per_line (concat A)
+  | OArray s c =>
+      [Word "matrix"%string] :: size_lines s ++ one_per_line c
   end.
 
 Definition export (b : Z) (o : obj) : list token := concat (export_lines b o).
@@ -147,7 +150,7 @@ Definition import_matrix (toks : list token) : option obj :=
   p <- rd_shape toks ;;
   match fst p with
   | [m; n] => v <- rd_nums (m * n) (snd p) ;; Some (OMatrix m n (reshapeC2 m n (fst v)))
-  | _ => None
+  | s => v <- rd_nums (size s) (snd p) ;; Some (OArray s (fst v))     (* C-order reshape of the C-order listing *)
   end.
 
 Definition import_ktensor (toks : list token) : option obj :=
@@ -175,6 +178,7 @@ Definition wf_obj (o : obj) : Prop :=
       length (ssubs Sp) = length (svals Sp) /\ Forall (fun i => inb (sshape Sp) i = true) (ssubs Sp)
   | OKtensor K => Forall (fun A => Forall (fun r => length r = krank K) A) (kfactors K)
   | OMatrix m n A => length A = m /\ Forall (fun r => length r = n) A
+  | OArray s c => length c = size s /\ length s <> 2
   end.
 
 End IO.
@@ -186,3 +190,4 @@ Arguments OTensor {D} X.
 Arguments OSptensor {D} Sp.
 Arguments OKtensor {D} K.
 Arguments OMatrix {D} m n A.
+Arguments OArray {D} s c.
